@@ -234,7 +234,6 @@ package core
 //@ ensures result == nil ==> signing.Verify(ctx, eth2Cl, data.DomainName(), res(0, data.Epoch(ctx, eth2Cl)), res(0, data.MessageRoot()), data.Signature().ToETH2(), pubkey) == nil
 //@ canary result != nil
 
-
 // ---- duty constructors ----------------------------------------------------------------------
 
 //@ func NewAttesterDuty
